@@ -85,6 +85,9 @@ func (g *genState) name() string { return Names[g.r.Intn(4)] }
 
 func (g *genState) sub() string {
 	if g.cfg.Subs && g.r.Chance(1, 3) {
+		if g.r.Chance(1, 8) {
+			return Subs[3+g.r.Intn(3)] // an oddity: "S1", "p%d", "k=v"
+		}
 		return Subs[g.r.Intn(2)]
 	}
 	return ""
@@ -222,6 +225,7 @@ func GenWorld(r *simrt.RNG, cfg GenCfg) World {
 		switch {
 		case p.Once || p.InForm == FormBuilt || r.Chance(1, 2):
 			a.Kind = ArgConvFunc
+			a.NilPad = r.Chance(1, 5)
 		default:
 			a.Kind = ArgConv
 		}
